@@ -3,7 +3,8 @@
 (* Trace validation for C03 / C16: every sample() call of a built-in       *)
 (* sampler made by the harness, in doubled grid units (coordinate = 2 x    *)
 (* index in param_grid, -1 when the float is not an element of the grid).  *)
-(*   sample{cls, bs, g, rem, rows, cols, idx, histsame}                    *)
+(*   sample{cls, bs, g, rem, rows, cols, idx, inbounds, histsame}          *)
+(*        inbounds: every coordinate within the declared bounds (1e-7)     *)
 (*   bestbatch{bs, range, g, rem, hist, rank, out}    history points,      *)
 (*        dense loss ranks, proposals                                      *)
 (*   select{bs, preds, sel, fitsame, predictsame}   surrogate: prediction  *)
@@ -46,7 +47,7 @@ SelectOK(e) == /\ e.fitsame /\ e.predictsame
                /\ \A v \in {e.preds[i] : i \in 1..Len(e.preds)} \cup {e.sel[i] : i \in 1..Len(e.sel)} :
                      CountV(e.sel, v) = Min2(CountV(e.preds, v), Max0(e.bs - Below(e.preds, v)))
 
-EvOK(e) == CASE e.e = "sample" -> Shape(e) /\ OnGridEv(e) /\ Untouched(e)
+EvOK(e) == CASE e.e = "sample" -> Shape(e) /\ OnGridEv(e) /\ e.inbounds /\ Untouched(e)
              [] e.e = "bestbatch" -> BestBatchOK(e)
              [] e.e = "select" -> SelectOK(e)
              [] OTHER -> FALSE
@@ -54,6 +55,7 @@ Step == /\ More /\ EvOK(Ev) /\ l' = l + 1 /\ UNCHANGED <<tid, vars>>
 Why == IF ~More THEN "end"
        ELSE CASE Ev.e = "sample" /\ ~Shape(Ev) -> "shape"
               [] Ev.e = "sample" /\ ~OnGridEv(Ev) -> "offgrid"
+              [] Ev.e = "sample" /\ ~Ev.inbounds -> "out-of-bounds"
               [] Ev.e = "sample" -> "history-modified"
               [] Ev.e = "bestbatch" -> "bestbatch-descent"
               [] Ev.e = "select" /\ ~(Ev.fitsame /\ Ev.predictsame) -> "surrogate-inputs"
